@@ -5,7 +5,7 @@ CONSTANTS
   MaxTerms = 3
   MaxFetch = 1
   Writers = {"seq", "par"}
-  CacheModes = {"off", "cold", "warm"}
+  CacheModes = {"cold"}
   SharedOpts = {FALSE}
   ShapeSet <- ShapesTiny
 INVARIANT Invs
